@@ -6,6 +6,7 @@ import re
 import typing
 
 from msdparser import MSDParserError
+import fs.errors as fs_errors
 
 from .. import gen, models, ops
 from ..core import RunResult, HarnessError, shash
@@ -129,6 +130,18 @@ def gen_msd_text(rng, fmt=None):
             param(_case(rng, rng.choice(KEYS)), [_val(rng)])     # parameter after NOTES
     stray()
     text = "".join(parts)
+    if rng.random() < 0.04:
+        # a long preamble (comments, blank lines) before the first parameter, straddling
+        # the 4096-character / 8192-byte chunk sizes of the readers
+        n = rng.choice([4000, 4090, 4100, 5000, 8200, 9000])
+        pre = []
+        size = 0
+        while size < n:
+            line = rng.choice(["// " + "c" * rng.randint(0, 70), "", "   ", "//"]) + nl
+            pre.append(line)
+            size += len(line)
+        bom = text[:1] if text[:1] == "\ufeff" else ""
+        text = bom + "".join(pre) + text[len(bom):]
     if rng.random() < 0.03:
         # straddle the 4096-character chunk msdparser reads / the 8192-byte chunk TextIOWrapper reads
         pad = "#PAD:" + "p" * rng.choice([4080, 4090, 4096, 8180, 8192]) + ";" + nl
@@ -235,6 +248,15 @@ def generate(prop, rng, run, tier):
         cfg["corrupt"] = how
     cfg["facade"] = gen.wchoice(rng, [("simfs", 46), ("native", 46), ("memoryfs", 4), ("realos", 4)])
     cfg["fmt"] = fmt
+    cfg["save_via"] = rng.choice(["serialize", "str", "str"])
+    if rng.random() < 0.25:
+        # history: str() of another object fails part-way first
+        cfg["failed_str_first"] = rng.choice(["int-value", "premature", "chart-without-notes"])
+    if rng.random() < 0.3:
+        # fault as history: a first save that fails part-way (storage error at the j-th
+        # call of the save, or an encoding that cannot hold the text); the retry is judged
+        cfg["failed_save_first"] = rng.choice([{"kind": "err", "j": rng.randint(1, 6)},
+                                               {"kind": "ascii"}, {"kind": "cp1252"}])
     return {"workload": "load", "property": "C04", "config": cfg, "data": data.hex()}
 
 
@@ -678,10 +700,45 @@ def check_c04(sc, res):
             else:
                 res.violate(P, clause, **detail)
 
+        # ---- optionally: a save that fails part-way first (fault), then the retry
+        fs1 = cfg.get("failed_save_first")
+        if fs1:
+            out0 = "/d/out0." + fmt
+            try:
+                if fs1["kind"] == "err":
+                    if hasattr(disk, "faults"):
+                        k = disk.seq + int(fs1["j"])
+                        disk.faults[k] = {"kind": "err", "k": k, "errno": "ENOSPC"}
+                    with opener(out0, "w", encoding="utf-8", buffering=2) as f:
+                        sf1.serialize(f)
+                else:
+                    with opener(out0, "w", encoding=fs1["kind"], buffering=2) as f:
+                        sf1.serialize(f)
+                res.stats["failed-save-did-not-fail"] += 1
+            except (OSError, UnicodeEncodeError, fs_errors.FSError):
+                res.stats["fault:first-save-failed-part-way"] += 1
+            if hasattr(disk, "faults"):
+                disk.faults.clear()
+                disk.pending_write_fail = None
+            if ops.real_plain(sf1, lib) != m1.plain():
+                res.violate(P, "failed-save-changed-the-loaded-simfile",
+                            before=_trim(m1.plain()), after=_trim(ops.real_plain(sf1, lib)))
+                return
+        if cfg.get("failed_str_first"):
+            from .edit import failed_str_elsewhere
+            failed_str_elsewhere(sc, res, {"what": cfg["failed_str_first"]}, lib, fmt)
+        via_str = cfg.get("save_via") == "str"
+
+        def save(sf, f):
+            if via_str:
+                f.write(str(sf))
+            else:
+                sf.serialize(f)
+
         # ---- save 1 (to the disk, through a real TextIOWrapper)
         try:
             with opener(out1, "w", encoding="utf-8", **kw) as f:
-                sf1.serialize(f)
+                save(sf1, f)
         except UnicodeEncodeError:
             res.stats["outside-domain:not-utf8"] += 1
             return
@@ -708,7 +765,7 @@ def check_c04(sc, res):
         # ---- save 2
         try:
             with opener(out2, "w", encoding="utf-8", **kw) as f:
-                sf2.serialize(f)
+                save(sf2, f)
         except Exception as e:
             gapped("second-save-raised", exc=repr(e))
             return
